@@ -20,6 +20,7 @@ def run(ctx):
     ctx.do(S.rule_sh8)
     ctx.do(D.rule_t4, [LIE, HOM])
     ctx.do(D.rule_t3, [LIE])
+    ctx.do(D.rule_lk1, [LIE])
     ctx.do(u1, ENTRIES, min_functions=12)
     ctx.r.assume("that products go to products, determinants, preserved "
                  "forms, the Killing form and the inverse up to sign are "
